@@ -8,7 +8,7 @@ import json
 import re
 import vlib
 
-PROOFS = ["MgProof.C04.Lemmas", "MgProof.C04.Props"]
+PROOFS = ["MgProof.C04.Lemmas", "MgProof.C04.LockStep", "MgProof.C04.OnceStep", "MgProof.C04.RefStep", "MgProof.C04.Props"]
 GREP = ["MgModel/C04", "MgProof/C04", "MgModel/Common", "Drv/C04.lean"]
 REPO_SRCS = ["muggle/c/sync/spinlock.c", "muggle/c/sync/synclock.c", "muggle/c/sync/mutex.c",
              "muggle/c/sync/call_once.c", "muggle/c/sync/ref_cnt.c", "muggle/c/sync/sync_obj_futex.c",
